@@ -387,7 +387,7 @@ Proof. destruct t as [m|s|l|s|l]; simpl; intros H; eauto. destruct m; eauto. con
 Lemma xpnum_ok v p : xpnum v = Ok p -> pval_num_ok v p = true.
 Proof.
   destruct v; simpl; intros H.
-  - inv_bind H. inversion H; subst. apply dec_eqb_refl.
+  - inversion H; subst. apply dec_eqb_refl.
   - inversion H; subst. apply String.eqb_refl.
 Qed.
 Lemma xctrl_ok c o : xctrl c = Ok o -> ctrl_ok c o = true.
@@ -405,7 +405,7 @@ Proof.
   destruct v; simpl; intros H.
   - inversion H; subst. apply Z.eqb_refl.
   - destruct x; simpl in *.
-    + inv_bind H. inversion H; subst. apply dec_eqb_refl.
+    + inversion H; subst. apply dec_eqb_refl.
     + inversion H; subst. apply String.eqb_refl.
 Qed.
 
@@ -693,7 +693,7 @@ Proof.
 Qed.
 
 Lemma xpnum_accepts v : pnum_fin v = true -> exists p, xpnum v = Ok p.
-Proof. destruct v; intros H; [unfold xpnum; rewrite H; simpl; eauto|simpl; eauto]. Qed.
+Proof. destruct v; intros H; simpl; eauto. Qed.
 Lemma xctrl_accepts c : ctrl_fin c = true -> exists o, xctrl c = Ok o.
 Proof.
   destruct c; simpl; intros H; eauto.
